@@ -46,8 +46,20 @@ _WS = None
 _BINS = None
 
 
+def die_with_parent():
+    try:
+        import ctypes, signal
+        ctypes.CDLL('libc.so.6', use_errno=True).prctl(1, signal.SIGKILL)   # PR_SET_PDEATHSIG
+    except Exception:
+        pass
+
+
 def _init_pool(bins, rundir):
     global _WS, _BINS
+    die_with_parent()
+    if os.environ.get('VERIF_DEBUG_FH'):
+        import faulthandler, signal
+        faulthandler.register(signal.SIGUSR1, file=open('/tmp/fh-%d.txt' % os.getpid(), 'w'), all_threads=True)
     _BINS = bins
     sim.RUN_DIR = rundir
     _WS = sim.WorkerSet(bins, tag='p%d' % os.getpid())
@@ -292,9 +304,15 @@ def cmd_check(prop, tier):
         budget_s = float(os.environ['VERIF_BUDGET_S'])
     deadline = time.time() + budget_s
 
+    import threading
+    inflight = threading.Semaphore(NPROC * 3)     # back-pressure: the pool's feeder thread would otherwise drain the generator at once
+
     def indices():
         i = 0
-        while i < max_jobs and time.time() < deadline:
+        while i < max_jobs:
+            inflight.acquire()
+            if time.time() >= deadline:
+                return
             yield (prop, tier, seed, i)
             i += 1
 
@@ -305,6 +323,7 @@ def cmd_check(prop, tier):
     job_wall = 0.0
     try:
         for rep in pool.imap_unordered(job_main, indices(), chunksize=1):
+            inflight.release()
             if not rep['ok']:
                 agg['errors'].append(rep['error'])
                 if len(agg['errors']) > 5:
@@ -358,6 +377,7 @@ def cmd_check(prop, tier):
 
     exit_code = 0
     reported = []
+    unconfirmed = []
     if harness:
         print('HARNESS: %d runs used an unsupported construct: %s' % (len(harness), harness[0]['detail'][:200]))
     for sig in sorted(fresh)[:4]:
@@ -382,10 +402,11 @@ def cmd_check(prop, tier):
                 v = cand
                 break
         if v is None:
-            print('HARNESS-NONDETERMINISM: candidate %s did not reproduce twice in fresh processes (job, times reproduced): %s' % (sig, tried))
-            exit_code = max(exit_code, 2)
+            print('UNCONFIRMED candidate %s did not reproduce twice in fresh processes (job, times reproduced): %s' % (sig, tried))
+            unconfirmed.append(sig)
             continue
-        small, sv, nruns = minimise(mod, v['spec'], v, bins, rundir, prop)
+        small, sv, nruns = minimise(mod, v['spec'], v, bins, rundir, prop, budget_runs=160 if not reported else 40,
+                                    budget_s=(60 if tier == 'quick' else 240) if not reported else 15)
         # the minimised case may now match a known finding exactly
         k = match_known(sv, known)
         if k is not None:
@@ -394,14 +415,25 @@ def cmd_check(prop, tier):
         path = write_replay(prop, seed, v['job'], small, sv, tier)
         r = subprocess.run([sys.executable, os.path.join(HERE, 'check.py'), 'replay', path], stdout=subprocess.PIPE, stderr=subprocess.STDOUT, text=True)
         if r.returncode != 1 or 'VIOLATION property=%s' % prop not in r.stdout:
-            print('HARNESS-NONDETERMINISM: minimised replay %s did not reproduce in a fresh process:\n%s' % (path, r.stdout[-1500:]))
-            exit_code = max(exit_code, 2)
-            continue
+            # fall back to the unminimised, gated case
+            os.unlink(path)
+            path = write_replay(prop, seed, v['job'], v['spec'], v, tier)
+            sv = v
+            r = subprocess.run([sys.executable, os.path.join(HERE, 'check.py'), 'replay', path], stdout=subprocess.PIPE, stderr=subprocess.STDOUT, text=True)
+            if r.returncode != 1 or 'VIOLATION property=%s' % prop not in r.stdout:
+                print('UNCONFIRMED replay %s did not reproduce in a fresh process:\n%s' % (path, r.stdout[-800:]))
+                os.unlink(path)
+                unconfirmed.append(sig)
+                continue
         print('  minimised in %d re-executions: %s' % (nruns, sv['detail'][:400]))
         print('VIOLATION property=%s replay=%s' % (prop, path))
         reported.append({'sig': sig, 'detail': sv['detail'], 'replay': path, 'jobs': len(vs)})
         if exit_code == 0:
             exit_code = 1
+    if unconfirmed and not reported:
+        # nothing confirmed, something seen that does not replay: a harness problem, not a finding
+        print('HARNESS-NONDETERMINISM: %d candidate signature(s) seen but none reproduced in fresh processes: %s' % (len(unconfirmed), unconfirmed))
+        exit_code = 2
     for k in known:
         print('KNOWN-FINDING: property=%s %s (matched %d times in this run)' % (prop, k['desc'], known_hits.get(k['desc'], 0)))
 
@@ -488,6 +520,8 @@ def det_job(arg):
 
 
 def main():
+    import faulthandler, signal
+    faulthandler.register(signal.SIGUSR1, all_threads=True)
     a = sys.argv[1:]
     if not a:
         print(__doc__); return 2
